@@ -13,14 +13,14 @@ CHECKS = {
          "every DAG on <=3/<=4 stages x all outcome assignments x every completion order is executed on the real scheduler; a monitor at Runner.Run entry refutes a start before a dependency returned; seeded larger/nested graphs and a free-running -race pass add reach. Exhaustive only inside the stated bounds.",
          "trusts the harness's gate Runner and the Go race detector; the polling pause is shortened through the verif hook, the loop itself is unchanged", "DESIGN.md §4 C01"),
  "C02": ("exploration", "reference-model comparison over explored completion orders + cross-order determinism check + race detector",
-         "final stage statuses, ran-set and error flag of every explored execution are compared with an executable model of the statement, and all completion orders of one configuration must agree with each other.",
+         "final stage statuses, ran-set and error flag of every explored execution are compared with an executable model of the statement, and all completion orders of one configuration must agree with each other; through the binary, every way a stage can fail (command, before-hook, timeout) x allow_failure on task / stage.",
          "reference model (cmd/vworker/sched.go) is trusted; don't-care region (cond-false stage behind a failure) is excluded from the strict comparison", "DESIGN.md §4 C02"),
  "C03": ("exploration", "exactly-once / termination monitor over explored schedules incl. cancellation injected at every explorer state",
          "per-stage Run counts, leftover Waiting/Running statuses and bounded-progress watchdogs (re-confirmed 3x) over the C01 executions plus runs cancelled by the caller or by a stage-condition error at every explorer state.",
          "unbounded 'eventually returns' is restated as 'returns within 10 s once nothing is in flight' (expected < 1 ms)", "DESIGN.md §4 C03"),
  "C04": ("exploration", "eligible-set monitor at logical quiescent points + shell-barrier pipelines on the real runner",
-         "at every quiescent point of every explored execution the tasks parked in the controlled Runner must contain the model's eligible set; barrier pipelines complete only if all eligible stages overlap.",
-         "quiescence is logical (two scheduler passes since the last change, via the sched.pass hook)", "DESIGN.md §4 C04"),
+         "at every quiescent point of every explored execution the tasks parked in the controlled Runner must contain the model's eligible set; barrier pipelines (2..6, 40 and 64 wide, context up-commands, a stage eligible while another task's hook is open) complete only if all eligible stages overlap.",
+         "quiescence is logical (two scheduler passes since the last change, via the sched.pass hook; a loop that is silent for 250 ms counts as settled, which never yields a verdict)", "DESIGN.md §4 C04"),
  "C05": ("exploration", "exhaustive + seeded graph builds compared with Kahn's algorithm and declared edge sets; CLI `graph` output parsed",
          "every digraph on <=3 (quick) / <=4 (thorough) stages incl. self-loops in every declaration order is built through the public API and compared with an independent cycle test; accepted graphs must expose exactly the declared edges; a YAML sample goes through the binary.",
          "Kahn's algorithm in the checker is the oracle; dangling names are C18", "DESIGN.md §4 C05"),
